@@ -7,7 +7,7 @@ from concurrent.futures import ThreadPoolExecutor
 import m4
 from vlib import *
 
-IMPORTS = "From KP Require Import model.Base model.ServiceMap model.Seq corr.M4corr.\nLocal Open Scope N_scope.\n"
+IMPORTS = "From KP Require Import model.Base model.ServiceMap model.Seq corr.M4corr corr.C04cmd.\nLocal Open Scope N_scope.\n"
 
 
 def go_run(work, hists, mats):
@@ -61,7 +61,7 @@ def run_property(prop, tier, seed, prop_files, coq_targets, profile, monitor, n_
     res = Result(prop, tier, seed)
     work = Work(prop)
     try:
-        ok, blog = coq_build(coq_targets + ["corr/M4corr.vo"])
+        ok, blog = coq_build(coq_targets + ["corr/M4corr.vo", "corr/C04cmd.vo"])
         proofs_ok, pa = True, ""
         ob = {"obligations": 0, "discharged": 0, "theorems": []}
         for pf in prop_files:
@@ -83,6 +83,13 @@ def run_property(prop, tier, seed, prop_files, coq_targets, profile, monitor, n_
             mx = m4.matrix(rnd, h, 8)
             hists.append(h)
             mats.append([mx for _ in h])
+        for h, k in (fixed or []) if pair_restart else []:
+            # directed pairs (run first): history h as it is, and with a restart inserted before step k
+            mx = m4.matrix(rnd, h, 8)
+            m = [mx for _ in h]
+            hists += [h, h[:k] + [{"op": "restart"}] + h[k:]]
+            mats += [m, m[:k] + [mx] + m[k:]]
+            ks.append(k)
         for _ in range(n):
             h = m4.gen_history(rnd, rnd.randint(*len_range), profile)
             if (profile or {}).get("rollout_template") and rnd.random() < 0.5:
